@@ -1,10 +1,14 @@
 (* C17 property theorems. Nothing but statements closed by [exact]. *)
-From OIDC Require Import Lib C17_RP C17_Construct C17_spec C17_proofs.
+From OIDC Require Import Lib C17_RP C17_Construct C17_Cookie C17_Tail C17_spec C17_proofs C17_ext_proofs.
 
 (* The model's answer satisfies the property predicate on every input: every
    way of building the RP (constructor, option list, discovery document), S256
    table, initial jar and history of operations. *)
-Theorem C17_spec_sound : forall i, spec i (model i) = true.
+(* (round 11: also every option list of the CookieHandler, every history in the
+   attribute-aware browser, every verifier option list, every token / userinfo answer;
+   wf excludes only rp.UserinfoCallback on an RP built by NewRelyingPartyOAuth - see
+   C17_userinfo_oauth_only_panics) *)
+Theorem C17_spec_sound : forall i, wf i = true -> spec i (model i) = true.
 Proof. exact spec_model_true. Qed.
 Print Assumptions C17_spec_sound.
 
@@ -212,3 +216,210 @@ Theorem C17_auth_url_single_valued : forall H cfg s v k,
   exists cs ps, start_login H cfg s v = EvAuth cs (c_auth cfg) ps /\ count_key k ps <= 1.
 Proof. exact auth_url_single_valued. Qed.
 Print Assumptions C17_auth_url_single_valued.
+
+(* ================= round 11: the model widened ================= *)
+Local Open Scope Z_scope.
+
+(* ---- pkg/http/cookie.go: NewCookieHandler and its options ---- *)
+
+(* Whatever options are passed, in whatever order and however often: Secure unless a
+   WithUnsecure was passed; SameSite / MaxAge / Domain / Path are those of the LAST option
+   of their kind (defaults Lax / 0 / "" / "/"); WithMaxAge also sets how old a value may be
+   when it is decoded (30 days otherwise). *)
+Theorem C17_cookie_handler_options : forall opts,
+  new_cookie_handler opts
+  = CH (negb (existsb is_unsecure opts))
+       (dflt (last_samesite opts) SSLax)
+       (dflt (last_maxage opts) 0)
+       (dflt (last_maxage opts) default_macage)
+       (dflt (last_domain opts) "")
+       (dflt (last_path opts) "/").
+Proof. exact cookie_handler_options. Qed.
+Print Assumptions C17_cookie_handler_options.
+
+(* Every Set-Cookie the RP sends in answer to a login or a callback (state and pkce
+   cookies, set and deleted) carries the handler's Domain, Path, Secure and SameSite and
+   HttpOnly; a deletion differs from a set only in Max-Age (and the empty value): it
+   addresses the same Domain and Path. *)
+Theorem C17_cookie_attrs : forall H cfg h keeps j o sc,
+  In sc (kev_cookies (krespond H cfg h keeps j o)) ->
+  a_domain (snd sc) = strip_dot (h_domain h) /\ a_path (snd sc) = h_path h
+  /\ a_httponly (snd sc) = true /\ a_secure (snd sc) = h_secure h
+  /\ a_samesite (snd sc) = wire_ss (h_samesite h)
+  /\ a_maxage (snd sc) = match snd (fst sc) with
+                         | Some _ => wire_maxage (h_maxage h)
+                         | None => -1
+                         end.
+Proof. exact cookie_attrs. Qed.
+Print Assumptions C17_cookie_attrs.
+
+(* All handlers, jars, requests: SetCookie answered to r1 then DeleteCookie of the same
+   handler answered to r2, both filed by the user agent under the same key (same host when
+   no Domain is configured; same default path when the configured Path is not absolute):
+   nothing is left under that key - the jar is the old jar without that key. *)
+Theorem C17_delete_addresses_set : forall h j r1 r2 n c,
+  ck_accepted (set_attrs h) r1 = true -> ck_accepted (set_attrs h) r2 = true ->
+  ck_dom (set_attrs h) r1 = ck_dom (set_attrs h) r2 ->
+  eff_path (set_attrs h) r1 = eff_path (set_attrs h) r2 ->
+  let key_ho := ck_hostonly (set_attrs h) in
+  let key_d := ck_dom (set_attrs h) r1 in
+  let key_p := eff_path (set_attrs h) r1 in
+  bj_store r2 (bj_store r1 j (decorate h (n, Some c))) (decorate h (n, None))
+  = bj_remove n key_ho key_d key_p j
+  /\ forall e, In e (bj_remove n key_ho key_d key_p j) -> same_key n key_ho key_d key_p e = false.
+Proof. exact delete_addresses_set. Qed.
+Print Assumptions C17_delete_addresses_set.
+
+(* Round trip / decision rule, all option sets: a login answered to r1, w seconds, a
+   callback request r2 from the same browser.  If the user agent stored the cookies
+   (Domain acceptable, MaxAge >= 0), r2 carries them (domain, path, Secure vs scheme,
+   Max-Age vs w unless the client keeps expired cookies) and they are not older than the
+   handler's max age, the callback is answered as for the jar holding exactly the login's
+   cookies; otherwise the unauthorized handler runs, nothing is sent, no cookie is touched. *)
+Theorem C17_cookie_roundtrip : forall H cfg h keeps s v r1 w q ok r2,
+  krun H cfg h keeps [] [KLogin s v r1; KWait w; KCallback q ok r2]
+  = [ KEvAuth (map (decorate h) (login_cookies cfg s v)) (c_auth cfg)
+              (auth_params cfg s (if c_pkce cfg then Some (H v) else None));
+      KEvNone;
+      if stored h r1 && carried keeps h r1 r2 w && negb (mac_expired (h_macage h) w)
+      then match callback cfg (jar_apply [] (login_cookies cfg s v)) q ok with
+           | EvCb hd reqs cs => KEvCb hd reqs (map (decorate h) cs)
+           | _ => KEvOther
+           end
+      else KEvCb (HUnauth "") [] [] ].
+Proof. exact cookie_roundtrip. Qed.
+Print Assumptions C17_cookie_roundtrip.
+
+(* MaxAge semantics: a negative WithMaxAge never round-trips *)
+Theorem C17_cookie_stored_iff : forall h r1,
+  stored h r1 = ck_accepted (set_attrs h) r1 && (0 <=? h_maxage h).
+Proof. exact stored_iff. Qed.
+Print Assumptions C17_cookie_stored_iff.
+
+(* ... and with MaxAge >= 0 a user agent that honours Max-Age never presents a cookie the
+   same handler finds too old *)
+Theorem C17_cookie_live_implies_fresh : forall opts h w,
+  h = new_cookie_handler opts -> 0 <= w -> 0 <= h_maxage h ->
+  (h_maxage h = 0 \/ w < h_maxage h) -> w <= default_macage ->
+  mac_expired (h_macage h) w = false.
+Proof. exact live_implies_fresh. Qed.
+Print Assumptions C17_cookie_live_implies_fresh.
+
+Theorem C17_cookie_roundtrip_nonvacuous :
+  let h := new_cookie_handler [WithPath "/auth"; WithMaxAge 300; WithDomain "rp.example"; WithSameSite SSStrict] in
+  let r1 := Req true "login.rp.example" "/auth/login" in
+  let r2 := Req true "rp.example" "/auth/callback" in
+  stored h r1 = true /\ carried false h r1 r2 100 = true /\ mac_expired (h_macage h) 100 = false
+  /\ carried false h r1 r2 400 = false /\ carried true h r1 r2 400 = true /\ mac_expired (h_macage h) 400 = true
+  /\ carried false h r1 (Req true "rp.example" "/other") 100 = false
+  /\ carried false h r1 (Req false "rp.example" "/auth/callback") 100 = false
+  /\ stored (new_cookie_handler [WithMaxAge (-1)]) r1 = false
+  /\ stored (new_cookie_handler [WithDomain "other.example"]) r1 = false.
+Proof. exact cookie_roundtrip_nonvacuous. Qed.
+Print Assumptions C17_cookie_roundtrip_nonvacuous.
+
+(* State bound in the attribute-aware browser, every history: a token request or the
+   application callback happens only when the request CARRIED a "state" cookie minted
+   under the RP's key with the query's state - in the jar, live for the client, matching
+   the request's host / path / scheme, not older than the handler's max age. *)
+Theorem C17_ck_state_bound : forall H cfg h keeps ops j0 j q ok r hd reqs cs,
+  In (j, KCallback q ok r, KEvCb hd reqs cs) (ktrace H cfg h keeps j0 ops) ->
+  (reqs <> [] \/ exists st, hd = HApp st) ->
+  exists e, In e j /\ be_name e = "state"%string
+    /\ be_val e = Mac (c_key cfg) "state" (form q "state")
+    /\ be_live keeps e = true /\ be_matches r e = true
+    /\ mac_expired (h_macage h) (be_age e) = false.
+Proof. exact ck_state_bound. Qed.
+Print Assumptions C17_ck_state_bound.
+
+(* ---- pkg/client/rp/verifier.go: WithIssuedAtOffset / WithIssuedAtMaxAge / WithAuthTimeMaxAge ---- *)
+Theorem C17_verifier_options : forall vo,
+  new_verifier vo = Vf (dflt (configured_offset vo) 1) (dflt (configured_iat_maxage vo) 0)
+                       (dflt (configured_auth_maxage vo) 0).
+Proof. exact verifier_options. Qed.
+Print Assumptions C17_verifier_options.
+
+(* An RP built by NewRelyingPartyOIDC reaches the application callback only with an ID
+   token the provider delivered whose iat / auth_time are within the LAST configured
+   WithIssuedAtMaxAge / WithAuthTimeMaxAge (0 = no limit). *)
+Theorem C17_verifier_max_ages : forall s vo wrap tr ui j q st reqs cs u info,
+  oauth_only s = false ->
+  tail_model s vo wrap tr ui j q = TailOut (EvCb (HApp st) reqs cs) u info ->
+  exists t, tr_id tr = Some t /\ tr_ok tr = true
+    /\ (forall d, configured_iat_maxage vo = Some d -> d <> 0 ->
+          exists a, it_iat_age t = Some a /\ a <= d)
+    /\ (forall d, configured_auth_maxage vo = Some d -> d <> 0 ->
+          exists a, it_auth_age t = Some a /\ a <= d).
+Proof. exact verifier_max_ages. Qed.
+Print Assumptions C17_verifier_max_ages.
+
+(* ---- rp.UserinfoCallback ---- *)
+
+(* The wrapped application callback runs only with the userinfo of the ID token's
+   subject (200, sub equal), fetched with "<token_type> <access_token>", after a
+   successful exchange, for the state of the RP's own state cookie. *)
+Theorem C17_userinfo_subject_bound : forall s vo tr ui j q st reqs cs u info,
+  tail_model s vo true tr ui j q = TailOut (EvCb (HApp st) reqs cs) u info ->
+  ui_ok ui = true /\ ui_sub ui = id_sub tr /\ info = Some (ui_sub ui)
+  /\ u = [(tr_type tr ++ " " ++ tr_access tr)%string]
+  /\ exchange_ok s vo tr = true /\ reqs <> []
+  /\ st = form q "state"
+  /\ jar_get "state" j = Some (Mac (c_key (construct s)) "state" (form q "state")).
+Proof. exact userinfo_subject_bound. Qed.
+Print Assumptions C17_userinfo_subject_bound.
+
+(* No userinfo request on behalf of a callback that did not pass the state check and exchange a code. *)
+Theorem C17_userinfo_only_after_exchange : forall s vo wrap tr ui j q ev u info,
+  tail_model s vo wrap tr ui j q = TailOut ev u info -> u <> [] ->
+  wrap = true /\ exchange_ok s vo tr = true
+  /\ jar_get "state" j = Some (Mac (c_key (construct s)) "state" (form q "state"))
+  /\ exists h reqs cs, ev = EvCb h reqs cs /\ reqs <> [].
+Proof. exact userinfo_only_after_exchange. Qed.
+Print Assumptions C17_userinfo_only_after_exchange.
+
+Theorem C17_tail_nonvacuous :
+  tail_model tail_setup tail_vo true (TokResp true "at" "Bearer" (Some (IdTok "u1" 3600 (Some 10) (Some 100))))
+             (UiResp true "u1") tail_jar tail_q
+  = TailOut (EvCb (HApp "a") [TokReq "c" "https://rp/cb" "cid" None false] [("state", None)])
+            ["Bearer at"%string] (Some "u1"%string)
+  /\ tail_model tail_setup tail_vo true (TokResp true "at" "Bearer" (Some (IdTok "u1" 3600 (Some 10) (Some 100))))
+                (UiResp true "u2") tail_jar tail_q
+     = TailOut (EvCb (HUnauth "a") [TokReq "c" "https://rp/cb" "cid" None false] [("state", None)])
+               ["Bearer at"%string] None
+  /\ tail_model tail_setup tail_vo true (TokResp true "at" "Bearer" (Some (IdTok "u1" 3600 (Some 45) (Some 100))))
+                (UiResp true "u1") tail_jar tail_q
+     = TailOut (EvCb (HUnauth "a") [TokReq "c" "https://rp/cb" "cid" None false] [("state", None)]) [] None
+  /\ spec (InpTail tail_setup tail_vo true (TokResp true "at" "Bearer" (Some (IdTok "u1" 3600 (Some 10) (Some 100))))
+                   (UiResp true "u2") tail_jar tail_q)
+          (ObsTail (TailOut (EvCb (HApp "a") [TokReq "c" "https://rp/cb" "cid" None false] [("state", None)])
+                            ["Bearer at"%string] (Some "u2"%string))) = false
+  /\ spec (InpTail tail_setup tail_vo false (TokResp true "at" "Bearer" (Some (IdTok "u1" 3600 (Some 45) (Some 100))))
+                   (UiResp true "u1") tail_jar tail_q)
+          (ObsTail (TailOut (EvCb (HApp "a") [TokReq "c" "https://rp/cb" "cid" None false] [("state", None)])
+                            [] None)) = false.
+Proof. exact tail_nonvacuous. Qed.
+Print Assumptions C17_tail_nonvacuous.
+
+(* outside wf: UserinfoCallback on an RP built by NewRelyingPartyOAuth *)
+Theorem C17_userinfo_oauth_only_panics :
+  wf oauth_userinfo_input = false /\ model oauth_userinfo_input = OPanic
+  /\ spec oauth_userinfo_input (model oauth_userinfo_input) = false.
+Proof. exact userinfo_oauth_only_panics. Qed.
+Print Assumptions C17_userinfo_oauth_only_panics.
+
+(* ---- rp.WithURLParam / WithPromptURLParam / WithResponseModeURLParam ---- *)
+
+(* Only a WithURLParam naming response_type / client_id / redirect_uri / scope / state can
+   disturb what C17_auth_url guarantees; the prompt and response_mode options never do. *)
+Theorem C17_url_opts_harmless : forall k p jw cl rd sc au l,
+  extra_ok (Cfg k p jw cl rd sc au (extras l)) = forallb url_opt_harmless l.
+Proof. exact extras_extra_ok. Qed.
+Print Assumptions C17_url_opts_harmless.
+
+(* The last WithResponseModeURLParam(m) decides response_mode in the authorization URL
+   (with or without a challenge). *)
+Theorem C17_response_mode_param : forall k p jw cl rd sc au l m s ch,
+  plookup "response_mode"
+    (auth_params (Cfg k p jw cl rd sc au (extras (l ++ [UResponseMode m]))) s ch) = Some m.
+Proof. exact response_mode_param. Qed.
+Print Assumptions C17_response_mode_param.
